@@ -11,12 +11,12 @@ ID = "C09"
 RULE = (
     "case = family of 2-4 point-compatible masters (random master; masters k>0 are position-based perturbations of amplitude 0.1-5, so that single-master cu2qu "
     "would pick different spline lengths; cubic / quadratic / mixed curves; nested, mixed and repeated-base composites; a component whose 2x2 differs in one master "
-    "at any component index; an interior line that has zero length in one master only; optional sparse master (a layer or a font of its own), a base interpolated twice at the sparse location; designspace or plain list of UFOs) x "
+    "at any component index; a 2x2 entry of exactly 2 or just beyond +-2; one component merged into the outline in one later master only (plain call); an interior line that has zero length in one master only; optional sparse master (a layer or a font of its own), a base interpolated twice at the sparse location; designspace or plain list of UFOs) x "
     "{compileInterpolatableTTFs, compileInterpolatableTTFsFromDS, compileInterpolatableOTFsFromDS} x {flattenComponents, skipExportGlyphs, lib filters, optimizeCFF}; "
     "oracle = structure signature per output glyph (TrueType: contour end points + on/off flags, or component bases + quantised 2x2; CFF: operator sequence per contour "
-    "with the closing line made explicit) equal in every master font containing the glyph; simple-vs-composite decided jointly; sparse masters contain only .notdef, layer "
+    "in three readings of a closed contour's last line: as written, implied line added, written-out closing line dropped) equal in every master font containing the glyph; simple-vs-composite decided jointly; sparse masters contain only .notdef, layer "
     "glyphs and their component closure; and (TrueType) every full master renders its own source master within the C02 bound (masters bent or filled alike stay "
-    "compatible but are not faithful). Non-trivial = single-master cu2qu would choose different spline lengths for some glyph, or a 2x2 differs, or a sparse master. "
+    "compatible but are not faithful); a pure composite with matching representable 2x2 stays a composite of the same bases; cu2qu reporting incompatible glyphs for compatible sources is a violation. Non-trivial = single-master cu2qu would choose different spline lengths for some glyph, or a 2x2 differs, or a sparse master. "
     "Distinct = case hash."
 )
 ASSUMPTIONS = [
